@@ -23,7 +23,10 @@
                put ReloadOne(worker_num, False)
 
    Python signal handlers (SIGHUP / SIGINT / SIGTERM), the watchdog thread (file change) and worker
-   deaths are asynchronous to this loop, hence the three delivery points.  A process is Live, Zombie
+   deaths are asynchronous to this loop, hence the three delivery points.  What happens inside prepare_workers
+   or inside the startup wait that ends ReloadOneAction.handle is the head of the delivery point that follows
+   (first te_sleep / next te_drain entry; see `init`); a death the startup wait's own is_alive() polls is DieS.
+   A process is Live, Zombie
    (dead, not yet waited for: still owns its pid) or Reaped (waited for by join() or is_alive(): the
    pid is free, os.kill on it raises ProcessLookupError).  No proofs in this file. *)
 From Coq Require Import ZArith List Bool Arith.
@@ -32,7 +35,11 @@ Import ListNotations.
 Inductive pstate := Live | Zombie | Reaped.
 Record proc := mkProc { pid : nat; pst : pstate }.
 Inductive action := ReloadAll | ReloadOne (slot : nat) (is_reload_all : bool) | Shutdown.
-Inductive event := Die (slot : nat) | Hup | Int | Term | FileChange.
+Inductive event :=
+| Die (slot : nat) | Hup | Int | Term | FileChange
+| DieS (slot : nat).   (* the worker of the slot dies inside its startup window - between Process.start() and the
+                          is_alive() poll of _wait_for_worker_startup (prepare_workers, ReloadOneAction.handle) - so
+                          that poll reaps it: Live -> Reaped without a scan *)
 Inductive exit_code := ExitNone (* return None *) | ExitFail (* return -1 *).
 Inductive effect :=
 | Start (slot p : nat) | Terminate (p : nat) | Join (p : nat) | Kill (p : nat)
@@ -60,13 +67,21 @@ Fixpoint set_nth {A} (i : nat) (x : A) (l : list A) : list A :=
 Definition kill_proc (p : proc) : proc := match pst p with Live => mkProc (pid p) Zombie | _ => p end.
 Definition die (i : nat) (ws : list proc) : list proc :=
   match nth_error ws i with Some p => set_nth i (kill_proc p) ws | None => ws end.
+Definition reap_proc (p : proc) : proc := mkProc (pid p) Reaped.
+Definition die_polled (i : nat) (ws : list proc) : list proc :=
+  match nth_error ws i with Some p => set_nth i (reap_proc p) ws | None => ws end.
 Definition deliver1 (st : state) (e : event) : state :=
   match e with
   | Die i => set_workers st (die i (workers st))
+  | DieS i => set_workers st (die_polled i (workers st))
   | Hup | FileChange => enq st [ReloadAll]      (* signal handler / schedule_workers_reload *)
   | Int | Term => enq st [Shutdown]
   end.
 Definition deliver (st : state) (evs : list event) : state := fold_left deliver1 evs st.
+(* the liveness scan and the shutdown branch start no process: no startup window, hence no polled death, at
+   their delivery points (a DieS listed there does not happen) *)
+Definition unpolled (e : event) : bool := match e with DieS _ => false | _ => true end.
+Definition deliver_np (st : state) (evs : list event) : state := deliver st (filter unpolled evs).
 Definition pop (l : list (list event)) : list event * list (list event) :=
   match l with [] => ([], []) | h :: t => (h, t) end.
 
@@ -75,7 +90,11 @@ Definition is_alive (p : proc) : bool * proc :=
   match pst p with Live => (true, p) | _ => (false, mkProc (pid p) Reaped) end.
 
 (* ---- prepare_workers: Process(...).start() per slot; _wait_for_worker_startup calls is_alive() once on
-   a process that was just started (Live): no state change *)
+   a process that was just started.  Whatever happens asynchronously inside prepare_workers (signals, file
+   changes, a worker that exits at once) is the head of the first tick's te_sleep: nothing in between looks at
+   the queue or at the workers, except that poll - a worker that died before it is `DieS i` (reaped), one
+   that died after it `Die i` (zombie).  Likewise the startup wait at the end of ReloadOneAction.handle and the
+   events at the head of the next te_drain entry. *)
 Definition init (c : cfg) (p0 : nat) : state * list effect :=
   (mkState (map (fun i => mkProc (p0 + i) Live) (seq 0 (nworkers c))) [] 0%Z (p0 + nworkers c),
    map (fun i => Start i (p0 + i)) (seq 0 (nworkers c))).
@@ -99,7 +118,7 @@ Fixpoint shutdown_live (idxs : list nat) (st : state) (aevs : list (list event))
       if pid (nth k (workers st) dummy) =? 0 then shutdown_live ks st aevs   (* `worker.pid and` short-circuits *)
       else
         let (ev, aevs') := pop aevs in
-        let st1 := deliver st ev in
+        let st1 := deliver_np st ev in
         let (al, w') := is_alive (nth k (workers st1) dummy) in
         let st2 := set_workers st1 (set_nth k w' (workers st1)) in
         if al then
@@ -116,7 +135,7 @@ Fixpoint scan (idxs : list nat) (st : state) (aevs : list (list event)) : state 
   | [] => st
   | k :: ks =>
       let (ev, aevs') := pop aevs in
-      let st1 := deliver st ev in
+      let st1 := deliver_np st ev in
       let (al, w') := is_alive (nth k (workers st1) dummy) in
       let st2 := set_workers st1 (set_nth k w' (workers st1)) in
       scan ks (if al then st2 else enq st2 [ReloadOne k false]) aevs'
@@ -168,7 +187,7 @@ Fixpoint drain_gen (sd : shutdown_fn) (fuel : nat) (c : cfg) (aevs : list (list 
 (* fuel: every iteration that goes on removes one action; a ReloadAll costs the n ReloadOne it puts *)
 Definition acost (n : nat) (a : action) : nat := match a with ReloadAll => n + 2 | _ => 1 end.
 Definition ecost (n : nat) (e : event) : nat :=
-  match e with Die _ => 0 | Hup | FileChange => n + 2 | Int | Term => 1 end.
+  match e with Die _ | DieS _ => 0 | Hup | FileChange => n + 2 | Int | Term => 1 end.
 Definition qcost (n : nat) (q : list action) : nat := fold_right (fun a s => acost n a + s) 0 q.
 Definition evcost (n : nat) (l : list event) : nat := fold_right (fun e s => ecost n e + s) 0 l.
 Definition devcost (n : nat) (l : list (list event)) : nat := fold_right (fun e s => evcost n e + s) 0 l.
